@@ -20,6 +20,16 @@ import tempfile
 
 from pmc.ref import excel as ref
 
+# Imported here (the runner loads this module before it forks the shard processes) so that
+# the ~2 s import of pandas / openpyxl / ase behind pmutt.io.excel is paid once, not per shard.
+import openpyxl  # noqa: E402,F401
+import pandas  # noqa: E402,F401
+import pmutt.io.excel  # noqa: E402,F401
+try:
+    import pandas.io.excel._openpyxl  # noqa: E402,F401  (reader engine, otherwise imported at first read)
+except ImportError:
+    pass
+
 ID = 'C15'
 RULE = ('product family: all sheet descriptions that differ from the default description in at most L '
         'coordinates (L=2 quick, 3 thorough), each written to an .xlsx file and read back; block family: '
